@@ -70,7 +70,7 @@ class Prop(BaseProp):
                 cases.append({"id": "x%d" % len(cases), "text": "%s %s %s" % (sch, ",".join(hexs(c) for c in chunks), ",".join(ranges)),
                               "meta": {"n": n, "scheme": sch}})
         # many tiny chunks: chunk counts around and above the footer reader's pre-allocation clamp (1152) and beyond
-        for n, sch in ([(1152, "none"), (1153, "none"), (1500, "lz4")] if not big else [(1152, "none"), (1153, "none"), (1153, "bg4"), (1500, "lz4"), (2500, "auto")]):
+        for n, sch in ([(1152, "none"), (1153, "none"), (1500, "lz4")] if not big else [(1152, "none"), (1153, "none"), (1153, "lz4"), (1500, "lz4"), (1300, "none")]):
             chunks = [gen_chunk(rng, "random", rng.choice([1, 1, 2, 3])) for _ in range(n)]
             ranges = ["0-%d" % n, "%d-%d" % (n - 1, n), "1151-1153", "1000-1200", "0-1", "%d-%d" % (n // 2, n // 2 + 3), "0-%d" % (n + 1)]
             cases.append({"id": "x%d" % len(cases), "text": "%s %s %s" % (sch, ",".join(hexs(c) for c in chunks), ",".join(ranges)),
